@@ -119,6 +119,8 @@ package main
 //@ func (p *program) Start$1()
 //@   props C17 C18
 //@   requires p != nil && p.nsqadmin != nil
+//   (round 7) the daemon Main runs on was built by New (checked at the `go` statement of Start, from New/[daemon])
+//@   requires[daemon-built-by-New] p.nsqadmin.httpListener != nil
 //   (established by Start before the `go` statement: Start/[main-precondition-established]; New/[graphite-url-parsed])
 //@   requires[graphite-url-parsed] curOpts.ProxyGraphite ==> p.nsqadmin.graphiteURL != nil
 //@   onspawn r6KAMainSpawns := r6KAMainSpawns + 1
